@@ -42,6 +42,13 @@ Lfp(g, sel, S) == LET T == ClosureStep(g, sel, S) IN IF T = S THEN S ELSE Lfp(g,
 Reach(g, sel) == Lfp(g, sel, SeqSet(g.start))          \* = "confirmed" nodes under a partial selection
 Active(g, sel) == {c \in ChIds(g) : Origin(g, c) \in Reach(g, sel) /\ sel[c] = 0}
 
+\* nodes that can still be part of an architecture under a partial selection (an untaken choice offers all options)
+PotStep(g, sel, S) ==
+    ClosureStep(g, sel, S) \cup UNION {Opts(g, c) : c \in {cc \in ChIds(g) : Origin(g, cc) \in S /\ sel[cc] = 0}}
+RECURSIVE PotLfp(_, _, _)
+PotLfp(g, sel, S) == LET T == PotStep(g, sel, S) IN IF T = S THEN S ELSE PotLfp(g, sel, T)
+Potential(g, sel) == PotLfp(g, sel, SeqSet(g.start))
+
 (***************************************************************************)
 (* All total option assignments, and the architecture each one denotes.    *)
 (***************************************************************************)
